@@ -22,6 +22,14 @@ def plan(ctx):
     else:
         P.append(sweep.family_shards(PROP, "U-F", j, max_deg=4))
         P.append(sweep.universe_shards(PROP, "U-S2", j, frac=4, seed=ctx.seed))
+    # non-absorbing, several and player-owned final states
+    if ctx.thorough:
+        P.append(sweep.universe_shards(PROP, "U-T3", j))
+        P.append(sweep.universe_shards(PROP, "U-T4r", j, frac=32, seed=ctx.seed))
+    else:
+        P.append(sweep.universe_shards(PROP, "U-T3", j, frac=16, seed=ctx.seed))
+        P.append(sweep.universe_shards(PROP, "U-T4r", j, frac=512, seed=ctx.seed))
+    P.append(sweep.family_shards(PROP, "U-Z", j))
     P.append(sweep.family_shards(PROP, "U-E", j))
     P.append(sweep.family_shards(PROP, "U-P2", j, stride=1 if ctx.thorough else 3, offset=ctx.seed))
     P.append(sweep.family_shards(PROP, "U-X", j))
